@@ -28,9 +28,10 @@ def enum_events(n, start, stop):
         tt = tuple(t)
         try:
             m = spf2.from_int_tuple(tt)
+            m0 = pack(m)                      # the image as returned, before any further call sees it
             b = spf2.to_int_tuple(m)
             mi = spf2.inverse(m)
-            out.append(dict(op='enum', n=n, t=li(tt), m=pack(m), b=li(b), mi=pack(mi)))
+            out.append(dict(op='enum', n=n, t=li(tt), m=m0, ma=pack(m), b=li(b), mi=pack(mi)))
         except Exception as ex:
             out.append(dict(op='exception', n=n, t=li(tt), error=repr(ex)))
         # own successor (the spec checks it independently)
